@@ -34,7 +34,7 @@ for p in props:
         na.append({"property_id": pid, "reason": META.get(pid, {}).get("na_reason", "not claimed yet: the specification modules and harness bindings for this property are still being built (see DESIGN.md section 12)")})
 manifest = {
     "version": 1,
-    "setup_cmd": "cd /verif/harness && CARGO_NET_OFFLINE=true cargo build --offline -q && CARGO_NET_OFFLINE=true cargo build --offline -q --release",
+    "setup_cmd": "cd /verif/harness && CARGO_NET_OFFLINE=true cargo build --offline -q && CARGO_NET_OFFLINE=true cargo build --offline -q --release && cd /repo && CARGO_NET_OFFLINE=true CARGO_TARGET_DIR=/verif/harness/target_suite cargo test --offline -q --features verif-hooks --no-run",
     "hooks": {
         "guard": "cargo feature verif-hooks",
         "enable": "the harness crate /verif/harness depends on /repo by path with features [\"serde\", \"verif-hooks\"]; cargo rebuilds it from /repo's working tree on every check",
